@@ -147,6 +147,9 @@ CLAIMS["C16"]["text"] += " Extension round: (3) the script mode's and the REPL's
 CLAIMS["C16"]["text"] += " (4) the statement assembler Loop never drops a line it has read from a statement that is being assembled (Loop#step[loop0:every_line_joins_the_statement])."
 CLAIMS["C08"]["text"] += " processInput does not touch the code and data segments after the statement has run, whatever the outcome (processInput#step[loop0:segments_untouched_after_the_run])."
 CLAIMS["C08"]["note"] = CLAIMS["C08"]["note"].replace(" That the code and data segments are never truncated after a failed run is not under contract (vm.Run's frame is `modifies *`).", " That vm.Run itself leaves the code and data segments alone is not proved (its frame is `modifies *`); what processInput does after the run is.")
+CLAIMS["C16"]["text"] += " (5) the script reader obtains its lines with bufio's ReadString (a string of its own holding the whole line): ReadSlice / ReadLine are forbidden call sites."
+CLAIMS["C17"]["text"] += " READ obtains its line with ReadString (ReadSlice / ReadLine are forbidden call sites)."
+CLAIMS["C10"]["text"] += " Extension round: lines handed to the program (READ) and to the statement assembler (script reader) are strings of their own - the zero-copy read methods of bufio are forbidden call sites."
 CLAIMS["C17"]["text"] += " READ fails only when the reader returned no data: the last line of an input without final newline is returned (defect D30, fixed 9325ab9)."
 CLAIMS["C17"]["text"] += " Extension round: the WRITE step hands exactly its operand to fmt.Print, once (vm.Run#atcall[write_prints_the_value]), pushes Nil, and TOA pushes the string rendering of its operand (step[isa_pushes_one])."
 CLAIMS["C02"]["text"] += (" The coroutine instructions are in the VM's step relation (vm.Run#step[loop0:isa_yield, isa_scont, isa_ccont, isa_dcont_rcont]): YIELD leaves its operand in the accumulator, suspends the generator at the YIELD and resumes the parent after the instruction it was suspended at with the value on its stack; "
